@@ -1079,6 +1079,8 @@ package keeper
 
 //@ func Keeper.GetConsumerInfractionUpdateTime
 //@ writes types.InfractionScheduledTimeToConsumerIdsKeyPrefix()
+//@ precall RemoveFromInfractionUpdateSchedule [removes-the-entry-where-it-was-found] id == consumerId && $RemoveFromInfractionUpdateSchedule.consumerId == consumerId && $RemoveFromInfractionUpdateSchedule.updateTime == ts && $GetFromInfractionUpdateSchedule.called && $GetFromInfractionUpdateSchedule.updateTime == ts
+//@ ensures [success-means-removed] result1 == nil ==> $RemoveFromInfractionUpdateSchedule.called && $RemoveFromInfractionUpdateSchedule.ret == nil && result0 == $RemoveFromInfractionUpdateSchedule.updateTime
 //@ ensures [no-deps] E == old(E) && X == old(X)
 
 //@ func Keeper.RemoveConsumerInfractionQueuedData
